@@ -236,7 +236,7 @@ CHECKS = {
         "manifest": {
             "technique": "property-based differential testing against real SQLite: rapid-generated schemas (CREATE TABLE grammar incl. rowid aliases, WITHOUT ROWID, constraints, quoting), rows (value grid, payloads sized around the spill thresholds, explicit extreme rowids, bulk rows computed by SQLite for depth 3-4 trees) and histories (DELETE/UPDATE/ALTER ADD COLUMN/VACUUM/incremental_vacuum/REINDEX) are executed by SQLite; sqlittle's Select on the resulting file must equal SQLite's SELECT ... ORDER BY rowid|primary key for generated column lists",
             "level_text": "Generated (database, column list) pairs; oracle = SQLite 3.40.1 itself on the same file, compared positionally and by storage class (only tolerance: an integral REAL may surface as an integer). A table whose definition sqlittle rejects must yield an error and no rows. Sampled.",
-            "level_note": "Page sizes 512..65536 and auto_vacuum 0/1/2 are generated; depth-4 trees only in the thorough tier. Statements SQLite rejects are skipped (SQLite decides what exists). Two listed known findings are matched by narrow signatures (see KNOWN_FINDINGS.txt).",
+            "level_note": "Page sizes 512..65536 and auto_vacuum 0/1/2 are generated; depth-4 trees only in the thorough tier. Statements SQLite rejects are skipped (SQLite decides what exists).",
         },
         "rule": ("database spec: page size, auto_vacuum, 1-2 tables from the CREATE TABLE grammar (25% beyond the core grammar), 0-45 parameter rows + optional bulk rows (30..1500, thorough 6000) computed by SQLite, "
                  "0-3 indexes, 0-5 history statements; column list: all columns or 1-6 picks incl. rowid/oid/_rowid_ spellings and duplicates. Non-trivial = a compared table with rows that spans several pages, has an "
